@@ -106,12 +106,13 @@ Definition basis (d c : nat) : list (list Z) := concat (map (sector d) (seq 0 c)
    separators start at [0..boxes-2]; rows written from the last index downwards;
    successor: rightmost separator not at its maximum is incremented, the ones
    after it reset to consecutive positions. Fuel = number of rows. *)
+Fixpoint row_go (positions prev : Z) (l : list Z) : list Z :=
+  match l with
+  | [] => [positions - prev - 1]
+  | s :: l' => (s - prev - 1) :: row_go positions s l'
+  end.
 Definition row_of_separators (positions : Z) (seps : list Z) : list Z :=
-  let fix go (prev : Z) (l : list Z) : list Z :=
-    match l with
-    | [] => [positions - prev - 1]
-    | s :: l' => (s - prev - 1) :: go s l'
-    end in go (-1) seps.
+  row_go positions (-1) seps.
 
 (* next separators; None when every separator is at its maximum *)
 Fixpoint next_seps (positions : Z) (boxes : Z) (i : Z) (seps : list Z) : option (list Z) :=
